@@ -312,12 +312,33 @@ func (c *Ctx) closureJoins(f *ssa.Function, isJoin func(ssa.Instruction) bool) b
 // waitFuncOf: v is the bound method value wg.Wait of a sync.WaitGroup; returns the wait group's cell.
 func waitFuncOf(v ssa.Value) ssa.Value {
 	mc, ok := v.(*ssa.MakeClosure)
-	if !ok || len(mc.Bindings) != 1 {
+	if !ok || len(mc.Bindings) < 1 {
 		return nil
 	}
 	f, ok := mc.Fn.(*ssa.Function)
-	if !ok || f.Synthetic == "" {
+	if !ok {
 		return nil
+	}
+	if f.Synthetic != "" && len(mc.Bindings) != 1 {
+		return nil
+	}
+	if f.Synthetic == "" {
+		// a hand-written wait function: func() error { wg.Wait(); return err } — it must wait on every path
+		fv := -1
+		var waitAt ssa.Instruction
+		allInstrs(f, func(in ssa.Instruction) {
+			if cc := callCommon(in); cc != nil && isCallTo(cc, "sync", "Wait") && len(cc.Args) == 1 {
+				for i, v := range f.FreeVars {
+					if cc.Args[0] == ssa.Value(v) {
+						fv, waitAt = i, in
+					}
+				}
+			}
+		})
+		if fv < 0 || fv >= len(mc.Bindings) || len(f.Blocks) == 0 || waitAt.Block() != f.Blocks[0] {
+			return nil
+		}
+		return mc.Bindings[fv]
 	}
 	isWait := false
 	allInstrs(f, func(in ssa.Instruction) {
@@ -476,6 +497,16 @@ func ruleL6(c *Ctx, min int, rels ...string) {
 						if isCallTo(cc, "sync", "Done") && len(cc.Args) == 1 {
 							if b := bindOf(cc.Args[0]); b != nil {
 								doneWG = append(doneWG, b)
+							}
+						}
+						// a done channel: the goroutine signals its end by closing it, the spawner joins by receiving
+						if isBuiltinCall(cc, "close") && len(cc.Args) == 1 {
+							ch := cc.Args[0]
+							if u, ok := ch.(*ssa.UnOp); ok && u.Op == token.MUL {
+								ch = u.X
+							}
+							if b := bindOf(ch); b != nil {
+								sendsOn = append(sendsOn, b)
 							}
 						}
 						// a module callee that receives from a channel argument until it is closed
